@@ -162,4 +162,104 @@ theorem runSegs_direct : ∀ (segs : List Seg) (b : Bk), b.pending = [] →
     simp only at hp ⊢
     rw [ih b2 hp]
 
+/-! ### histories -/
+
+def substBk? (σ : Option (String → Int)) (b : Bk) : Bk :=
+  match σ with
+  | some f => substBk f b
+  | none => b
+
+theorem substBk?_of_pending_nil (σ : Option (String → Int)) (b : Bk) (h : b.pending = []) :
+    substBk? σ b = b := by
+  cases σ with
+  | none => rfl
+  | some f => exact substBk_of_pending_nil f b h
+
+theorem build_subst? (σ : Option (String → Int)) (b : Bk) (op : BOp) :
+    build (substBk? σ b) (substBOp? σ op) = substBk? σ (build b op) := by
+  cases σ with
+  | none => rfl
+  | some f => exact build_subst f b op
+
+/-- simulation: the direct program, started in the substituted bookkeeping with everything the
+pre-compiled flow has sent or compiled so far already sent, ends in the same bookkeeping having
+sent what the pre-compiled flow sent plus what it still holds compiled -/
+theorem runH_direct : ∀ (es : List HEv) (s s' : HSt),
+    runH false s es = some s' →
+    runH false ⟨substBk? (nextσ es) s.bk, [], s.sent ++ s.queue⟩ (directH es) =
+      some ⟨s'.bk, [], s'.sent ++ s'.queue⟩ := by
+  intro es
+  induction es with
+  | nil =>
+    intro s s' h
+    simp only [runH, Option.some.injEq] at h
+    subst h
+    rfl
+  | cons e es ih =>
+    intro s s' h
+    simp only [runH] at h
+    cases hs : stepH false s e with
+    | none => rw [hs] at h; cases h
+    | some s1 =>
+      rw [hs] at h
+      have ih1 := ih s1 s' h
+      cases e with
+      | build op =>
+        simp only [stepH, Option.some.injEq] at hs
+        subst hs
+        simp only [directH, nextσ, runH, stepH, build_subst?]
+        exact ih1
+      | commit =>
+        simp only [stepH] at hs
+        cases hq : s.queue with
+        | nil => rw [hq] at hs; cases hs
+        | cons c q =>
+          rw [hq] at hs
+          simp only [Bool.false_eq_true, if_false, Option.some.injEq] at hs
+          subst hs
+          simp only [directH, nextσ]
+          simp only [List.append_assoc, List.singleton_append] at ih1
+          exact ih1
+      | flush =>
+        simp only [stepH] at hs
+        by_cases hq : s.queue.isEmpty = true
+        · rw [if_pos hq] at hs
+          have hq' : s.queue = [] := List.isEmpty_iff.mp hq
+          simp only [directH, nextσ, substBk?, runH, stepH, List.isEmpty_nil, if_true]
+          cases hf : flushOp s.bk with
+          | mk sub b' =>
+            rw [hf] at hs
+            have hp : b'.pending = [] := by have := flushOp_pending s.bk; rw [hf] at this; exact this
+            cases sub with
+            | none =>
+              simp only [Option.some.injEq] at hs
+              subst hs
+              simp only [substBk?_of_pending_nil _ b' hp] at ih1
+              exact ih1
+            | some cs =>
+              simp only [Option.some.injEq] at hs
+              subst hs
+              simp only [substBk?_of_pending_nil _ b' hp, hq', List.append_nil] at ih1 ⊢
+              exact ih1
+        · rw [if_neg hq] at hs; cases hs
+      | compile σ =>
+        simp only [stepH, Bool.false_eq_true, if_false, compileOp_eq_flushOp] at hs
+        simp only [directH, nextσ, substBk?, runH, stepH, List.isEmpty_nil, if_true, flushOp_subst]
+        cases hf : flushOp s.bk with
+        | mk sub b' =>
+          rw [hf] at hs
+          have hp : b'.pending = [] := by have := flushOp_pending s.bk; rw [hf] at this; exact this
+          cases sub with
+          | none =>
+            simp only [Option.some.injEq] at hs
+            subst hs
+            simp only [substBk?_of_pending_nil _ b' hp] at ih1
+            exact ih1
+          | some cs =>
+            simp only [Option.some.injEq] at hs
+            subst hs
+            simp only [substBk?_of_pending_nil _ b' hp, List.append_assoc] at ih1
+            simp only [Option.map_some, List.append_assoc]
+            exact ih1
+
 end NQ.Tpl
